@@ -291,6 +291,147 @@ func init() {
 		}})
 }
 
+// reachFromBlock: reachAvoiding starting at the first instruction of b (inclusive).
+func reachFromBlock(b *ssa.BasicBlock, target, stop func(ssa.Instruction) bool) ssa.Instruction {
+	if len(b.Instrs) == 0 {
+		return nil
+	}
+	f := b.Instrs[0]
+	if stop != nil && stop(f) {
+		return nil
+	}
+	if target(f) {
+		return f
+	}
+	return reachAvoiding(f, target, stop)
+}
+
+// selectCaseBlock: the block entered when state k of select s was chosen.
+func selectCaseBlock(s *ssa.Select, k int) *ssa.BasicBlock {
+	var idx ssa.Value
+	for _, ref := range *s.Referrers() {
+		if e, ok := ref.(*ssa.Extract); ok && e.Index == 0 {
+			idx = e
+		}
+	}
+	if idx == nil {
+		return nil
+	}
+	for _, b := range s.Parent().Blocks {
+		for _, f := range edgeFactsInto(b) {
+			c, ok := normFact(f)
+			if !ok || c.Op != token.EQL {
+				continue
+			}
+			if v, isC := constInt(c.Y); isC && c.X == idx && v == int64(k) {
+				return b
+			}
+			if v, isC := constInt(c.X); isC && c.Y == idx && v == int64(k) {
+				return b
+			}
+		}
+	}
+	return nil
+}
+
+func init() {
+	register(&Rule{ID: "C11.R5", Props: []string{"C11"}, Min: 3, Needs: NeedMain,
+		Doc: "a dequeued request is never written to a connection already reported dead, and is never dropped: on every path from a dequeue (sendQueue/sendFailQueue) to conn.Write the sender polls connDone without blocking; when that poll fires the request is re-queued on sendFailQueue before the sender writes or returns; and every path from a dequeue to a return passes conn.Write or that re-queue",
+		Run: func(r *R) {
+			fn := senderFunc(r.w)
+			if fn == nil {
+				r.AnchorMissing("sender loop")
+				return
+			}
+			var done ssa.Value
+			for _, p := range fn.Params {
+				if ch, ok := p.Type().Underlying().(*types.Chan); ok && basicKind(ch.Elem()) == types.Bool {
+					done = p
+				}
+			}
+			isWrite := func(in ssa.Instruction) bool {
+				c, ok := in.(*ssa.Call)
+				return ok && c.Call.IsInvoke() && c.Call.Method.Name() == "Write" && isNetConn(c.Call.Value.Type())
+			}
+			isRequeue := func(in ssa.Instruction) bool {
+				s, ok := in.(*ssa.Send)
+				return ok && strings.HasSuffix(pathOf(s.Chan), ".sendFailQueue")
+			}
+			isPoll := func(in ssa.Instruction) bool {
+				s, ok := in.(*ssa.Select)
+				if !ok || s.Blocking || done == nil {
+					return false
+				}
+				for _, st := range s.States {
+					if st.Dir == types.RecvOnly && strip(st.Chan, false) == done {
+						return true
+					}
+				}
+				return false
+			}
+			eachInstr(fn, func(in ssa.Instruction) {
+				s, ok := in.(*ssa.Select)
+				if !ok {
+					return
+				}
+				for k, st := range s.States {
+					p := pathOf(st.Chan)
+					if st.Dir != types.RecvOnly || !(strings.HasSuffix(p, ".sendQueue") || strings.HasSuffix(p, ".sendFailQueue")) {
+						continue
+					}
+					q := p[strings.LastIndex(p, ".")+1:]
+					cb := selectCaseBlock(s, k)
+					if cb == nil {
+						r.Undecided(fname(fn), "dequeue from "+q, in.Pos(), "the block entered on this select case was not identified")
+						continue
+					}
+					w := reachFromBlock(cb, isWrite, isPoll)
+					r.Check(w == nil, fname(fn), "liveness re-checked between dequeue from "+q+" and write", in.Pos(), "every path from the dequeue to conn.Write polls connDone", "a request taken from %s can reach conn.Write (%s) without a non-blocking poll of connDone: when the connection was reported dead in the same instant (select picks among ready cases at random) the request is written to the dead connection", q, posOf(r, w))
+					ex := reachFromBlock(cb, isReturn, func(i ssa.Instruction) bool { return isWrite(i) || isRequeue(i) })
+					r.Check(ex == nil, fname(fn), "request dequeued from "+q+" is written or re-queued", in.Pos(), "every path from the dequeue to a return passes conn.Write or a send on sendFailQueue", "the sender can return (%s) after taking a request from %s without writing or re-queueing it: the request is lost and its caller waits for the full timeout", posOf(r, ex), q)
+				}
+			})
+			// the poll's hit edge re-queues before anything else
+			eachInstr(fn, func(in ssa.Instruction) {
+				s, ok := in.(*ssa.Select)
+				if !ok || !isPoll(in) {
+					return
+				}
+				// only polls that sit between a dequeue and the write hold a request
+				holds := false
+				eachInstr(fn, func(d ssa.Instruction) {
+					ds, ok := d.(*ssa.Select)
+					if !ok {
+						return
+					}
+					for k, st := range ds.States {
+						p := pathOf(st.Chan)
+						if st.Dir == types.RecvOnly && (strings.HasSuffix(p, ".sendQueue") || strings.HasSuffix(p, ".sendFailQueue")) {
+							if cb := selectCaseBlock(ds, k); cb != nil && reachFromBlock(cb, func(i ssa.Instruction) bool { return i == in }, func(i ssa.Instruction) bool { return isWrite(i) || isReturn(i) }) != nil {
+								holds = true
+							}
+						}
+					}
+				})
+				if !holds {
+					return
+				}
+				for k, st := range s.States {
+					if strip(st.Chan, false) != done {
+						continue
+					}
+					cb := selectCaseBlock(s, k)
+					if cb == nil {
+						r.Undecided(fname(fn), "connDone poll after dequeue", in.Pos(), "hit edge not identified")
+						continue
+					}
+					ex := reachFromBlock(cb, func(i ssa.Instruction) bool { return isWrite(i) || isReturn(i) }, isRequeue)
+					r.Check(ex == nil, fname(fn), "dead connection after dequeue: request handed to sendFailQueue", in.Pos(), "the hit edge of the poll re-queues the request before writing or returning", "when the poll finds the connection dead the sender reaches %s without re-queueing the request it holds", posOf(r, ex))
+				}
+			})
+		}})
+}
+
 func posOf(r *R, in ssa.Instruction) string {
 	if in == nil {
 		return ""
